@@ -75,17 +75,27 @@ class _E(enum.IntEnum):
     D = 2
 
 
+class _S(enum.IntEnum):      # sparse: values 1 and 2 only
+    A = 1
+    B = 2
+
+
+def _enum_cls(p):
+    return _S if p.get('sparse') else _E
+
+
 def _enum_build(p):
     w = p['w']
-    idx = pyrtl.Input(2, 'idx')
+    idx = pyrtl.Input(p.get('cw', 2), 'idx')
     names = p['names']
-    table = {getattr(_E, nm): pyrtl.Input(w, 'd' + nm) for nm in names}
+    E = _enum_cls(p)
+    table = {getattr(E, nm): pyrtl.Input(w, 'd' + nm) for nm in names}
     kw = {}
     if p.get('default') == 'kw':
         kw['default'] = pyrtl.Input(w, 'dflt')
     elif p.get('default') == 'otherwise':
         table[pyrtl.otherwise] = pyrtl.Input(w, 'dflt')
-    if len(names) < 4 and not p.get('default'):
+    if len(names) < len(E) and not p.get('default'):
         kw['strict'] = False
     return _outs([('emux', pyrtl.enum_mux(idx, table, **kw))])
 
@@ -93,17 +103,17 @@ def _enum_build(p):
 def _enum_spec(o, p, ins):
     r = ins['dflt'] if p.get('default') else 0
     for nm in p['names']:
-        r = o.ite(ins['idx'] == int(getattr(_E, nm)), ins['d' + nm], r)
+        r = o.ite(ins['idx'] == int(getattr(_enum_cls(p), nm)), ins['d' + nm], r)
     return dict(emux=r)
 
 
 def _enum_pre(o, p, ins):
     if p.get('default'):
         return o.and_(True)
-    return o.or_(*[ins['idx'] == int(getattr(_E, nm)) for nm in p['names']])
+    return o.or_(*[ins['idx'] == int(getattr(_enum_cls(p), nm)) for nm in p['names']])
 
 
-case('mux.enum', _enum_spec, W=lambda p: p['w'] + 6, pre=_enum_pre)(_enum_build)
+case('mux.enum', _enum_spec, W=lambda p: p['w'] + p.get('cw', 2) + 6, pre=_enum_pre)(_enum_build)
 
 
 # ----------------------------------------------------------------------------- prioritized mux / demux / MultiSelector
@@ -378,7 +388,17 @@ def _ws_build(p):
     ne = Nested(values=[x])
     pk = Packet(tag=a[0:2], body=a)
     pk2 = Packet(Packet=pyrtl.concat(a, a[0:2]))
+    # per-component drivers that are plain WireVectors (operator results) narrower / wider than
+    # the field: '<<=' semantics, i.e. zero-extended or truncated to the declared field width
+    n2 = h[0:2] ^ lo[0:2]            # 2-bit plain WireVector
+    w6 = pyrtl.concat(h, lo[0:2])    # 6-bit plain WireVector
+    b3 = Byte(high=n2, low=n2 & lo[0:2])
+    b4 = Byte(high=w6, low=w6)
+    b5 = Byte(name='nm', high=n2, low=w6)
+    wd3 = Word(values=[n2, w6, h ^ lo])
     return _outs([
+        ('b3_all', pyrtl.as_wires(b3)), ('b3_high', b3.high), ('b4_all', pyrtl.as_wires(b4)),
+        ('b5_all', pyrtl.as_wires(b5)), ('wd3_all', pyrtl.as_wires(wd3)), ('wd3_0', wd3[0]),
         ('b1_high', b1.high), ('b1_low', b1.low), ('b1_all', pyrtl.as_wires(b1)),
         ('b2_all', pyrtl.as_wires(b2)), ('b2_high', b2.high), ('b2_low', b2.low),
         ('px_r', px.r), ('px_g', px.g), ('px_b', px.b),
@@ -393,7 +413,12 @@ def _ws_build(p):
 def _ws_spec(o, p, ins):
     a, h, lo, x = ins['a'], ins['h'], ins['l'], ins['x']
     a6 = a % 64
-    return dict(
+    n2 = (h % 4) ^ (lo % 4)
+    w6 = (h << 2) + (lo % 4)
+    extra = dict(b3_all=(n2 << 4) + (n2 & (lo % 4)), b3_high=n2,
+                 b4_all=((w6 % 16) << 4) + (w6 % 16), b5_all=(n2 << 4) + (w6 % 16),
+                 wd3_all=(n2 << 8) + ((w6 % 16) << 4) + (h ^ lo), wd3_0=n2)
+    return dict(extra, 
         b1_high=a >> 4, b1_low=a % 16, b1_all=a,
         b2_all=(h << 4) + lo, b2_high=h, b2_low=lo,
         px_r=a6 >> 3, px_g=(a6 >> 1) % 4, px_b=a6 % 2,
